@@ -123,10 +123,16 @@ def compare(res, key, m, model, rel, inp, what=''):
             res.violation(key + '/id', '%s: id[%d] = %r, recorded %r' % (what, i, ids[i], id_), inp)
             ok = False
     for i in ([0, len(model) - 1, -1, -len(model)] if model else []):
-        gx, gy = api(m.__getitem__, i)
-        if not (same(gx, plain(model[i][0])) and same(gy, plain(model[i][1]), rel)):
-            res.violation(key + '/getitem-int', '%s: m[%d] = %r, recorded %r' % (what, i, (gx, gy), model[i][:2]), inp)
-            ok = False
+        for idx in (i, np.int64(i), np.intp(i)):          # an integer index is an integer index, python or numpy (argmin, arange)
+            try:
+                gx, gy = api(m.__getitem__, idx)
+                good = same(gx, plain(model[i][0])) and same(gy, plain(model[i][1]), rel)
+            except Exception as e:      # noqa -- raised, or returned something that is not a (parameters, cost) pair
+                gx, gy, good = 'raised / malformed: %r' % (e,), None, False
+            if not good:
+                res.violation(key + '/getitem-int', '%s: m[%r] (%s) = %r, recorded %r' % (what, i, type(idx).__name__, (gx, gy), model[i][:2]), inp)
+                ok = False
+                break
     return ok
 
 
